@@ -79,15 +79,18 @@ func runCRDT(prop string, args []string) int {
 	budget := 8 * time.Minute
 	if tier == "thorough" {
 		variants = 8
-		budget = 25 * time.Minute
+		budget = 35 * time.Minute
 	}
-	deadline := time.Now().Add(budget)
 	var states, trans, merges, selfloops, validated int
 	outcomes := map[string]struct{}{}
 	exhaustive := true
 	var perScenario []map[string]any
 	classes := map[string]crdtx.Viol{}
-	for _, sc := range crdtScenarios(tier) {
+	scs := crdtScenarios(tier)
+	for _, sc := range scs {
+		// every scenario gets an equal share of the time budget (a scenario that ends early does not
+		// pass its share on: the cost of a run stays predictable)
+		deadline := time.Now().Add(budget / time.Duration(len(scs)))
 		for v := 0; v < variants; v++ {
 			cfg := sc.Cfg
 			cfg.Variant = v + rep.Seed()*1000
